@@ -71,6 +71,11 @@ def run(pid, tier, seed, res, only=None):
             outs = sorted(rng.sample(usable, rng.randint(1, min(2, len(usable)))))
             # statements used as activation flags are interesting inputs; their dependents interesting outputs
             flagged = [(i, st["active"][1]) for i, st in enumerate(prog["stmts"]) if st.get("active") and st["active"][0] == "var" and i in usable and st["active"][1] in usable]
+            kwused = [(i, ex[1]) for i, st in enumerate(prog["stmts"]) if st["op"] == "call" for ex in st["kwargs"].values() if ex[0] == "var" and i in usable and ex[1] in usable]
+            if kwused and rng.random() < 0.6:
+                i_, f_ = rng.choice(kwused)
+                ins = sorted(set(ins) | {f_})
+                outs = sorted((set(outs) | {i_}) - {f_}) or [i_]
             if flagged and rng.random() < 0.6:
                 i_, f_ = rng.choice(flagged)
                 ins = sorted(set(ins) | {f_})
@@ -135,7 +140,8 @@ def run(pid, tier, seed, res, only=None):
         after = tz.run_controlled(lambda: d(*args), ctl1)
         table_after = sorted((k, [(u.id, tuple(u.key)) for u in x.args], sorted((kk, u.id, tuple(u.key)) for kk, u in x.kwargs.items()), None if x.active is None else (x.active.id, tuple(x.active.key))) for k, x in d.exec_nodes.items())
         if before[0] != after[0] or (before[0] == "ok" and not same(before[1], after[1])) or table_before != table_after:
-            res.hit("C19", "monitor", "composing / running the composed DAG changed the original DAG (value %r -> %r)" % (before[1], after[1]), dict(base, kind="monitor"))
+            for p_ in ("C19", "C15"):
+                res.hit(p_, "monitor", "composing / running the composed DAG changed the original DAG (value %r -> %r)" % (before[1], after[1]), dict(base, kind="monitor"))
         # ---- embedding of the composed table in the original with the inputs overridden
         if ctl.cfgs:
             cfg1 = ctl.cfgs[0]
